@@ -574,6 +574,38 @@ func c17Mismatch(w *W, r *rand.Rand, la, lb int) {
 		expectErr(Op("overlap", TBool, Var("E", TAny), sb.lit()), map[string]interface{}{"E": ev}, fmt.Sprintf("overlap of an empty %T variable with a string list", ev))
 		expectErr(Op("overlap", TBool, sb.lit(), Var("E", TAny)), map[string]interface{}{"E": ev}, fmt.Sprintf("overlap of a string list with an empty %T variable", ev))
 	}
+	// a probe that is neither an integer nor a string is an element of no list, empty ones included: an error against
+	// every kind of collection (literal, empty literal, typed empty variables, nil slices, pre-built sets)
+	probes := []struct {
+		v    interface{}
+		what string
+	}{{true, "a boolean"}, {nil, "nil"}, {[]int64{1}, "a list"}, {1.5, "a float64"}, {eval.DNE, "the DNE marker"}, {map[int64]struct{}{1: {}}, "a set"}}
+	colls := []struct {
+		n    *Node
+		v    interface{}
+		what string
+	}{
+		{empty, nil, "the empty list literal"}, {ia.lit(), nil, "an int list literal"}, {sb.lit(), nil, "a string list literal"},
+		{Var("L", TAny), []string{}, "an empty []string variable"}, {Var("L", TAny), []string(nil), "a nil []string variable"},
+		{Var("L", TAny), []int64{}, "an empty []int64 variable"}, {Var("L", TAny), []int64(nil), "a nil []int64 variable"},
+		{Var("L", TAny), []int{}, "an empty []int variable"},
+		{Var("L", TAny), sb.strs, "a []string variable"}, {Var("L", TAny), ia.ints, "a []int64 variable"},
+		{Var("L", TAny), map[string]struct{}{}, "an empty pre-built string set"}, {Var("L", TAny), map[int64]struct{}{}, "an empty pre-built int set"},
+		{Var("L", TAny), map[string]struct{}{"a": {}}, "a pre-built string set"}, {Var("L", TAny), map[int64]struct{}{5: {}}, "a pre-built int set"},
+	}
+	for _, p := range probes {
+		for _, c := range colls {
+			vals := map[string]interface{}{"v": p.v}
+			if c.v != nil {
+				vals["L"] = c.v
+			}
+			expectErr(Op("in", TBool, Var("v", TAny), c.n), vals, "membership of "+p.what+" (variable) in "+c.what)
+			w.Inc("ill_typed_probes")
+		}
+	}
+	for _, c := range colls[:3] {
+		expectErr(Op("in", TBool, Lit(true), c.n), nil, "membership of the literal true in "+c.what)
+	}
 	expectFalse(Op("overlap", TBool, empty, empty), nil, "overlap of two empty literals")
 	expectFalse(Op("in", TBool, Lit(int64(1)), empty), nil, "membership in the empty literal (int)")
 	expectFalse(Op("in", TBool, Lit("a"), empty), nil, "membership in the empty literal (string)")
